@@ -670,7 +670,8 @@ class VM:
         bb = ms.str_atoms(b) if isinstance(b, (ms.SStr, str)) else atoms_of(b)
         if any(isinstance(x, Run) for x in aa) or any(isinstance(x, Run) for x in bb):
             raise Unsupported('ordering of bytes with runs')
-        for x, y in zip(aa, bb):
+        m = min(len(aa), len(bb))
+        for i, (x, y) in enumerate(zip(aa, bb)):
             if isinstance(x, int) and isinstance(y, int):
                 if x != y:
                     return CMP[t](x, y)
@@ -679,6 +680,9 @@ class VM:
             if zx.sort == z3.BV or zy.sort == z3.BV:
                 zx = z3.BV2Int(zx) if zx.sort == z3.BV else zx
                 zy = z3.BV2Int(zy) if zy.sort == z3.BV else zy
+            if i == m - 1 and len(aa) == len(bb):
+                # last position decides alone: a value, not a fork
+                return mk_bool({ast.Lt: zx < zy, ast.LtE: zx <= zy, ast.Gt: zx > zy, ast.GtE: zx >= zy}[t])
             if not self.truth(mk_bool(zx == zy)):
                 return self.truth(mk_bool(zx < zy)) == (t in (ast.Lt, ast.LtE))
         return CMP[t](len(aa), len(bb))
@@ -817,6 +821,8 @@ class VM:
             return NOOP
         if fn is NOOP or isinstance(fn, NoOp):
             return NOOP
+        if fn in TEXT_ONLY and (any(isinstance(a, SymText) for a in args) or deep_sym(args)):
+            return SymText(list(args))
         if not deep_sym(args) and not deep_sym(kwargs):
             return fn(*args, **kwargs)
         raise Unsupported(f'call of {getattr(fn, "__qualname__", repr(fn))} with symbolic args')
@@ -1440,6 +1446,23 @@ class VM:
         from . import models_str as ms
         if isinstance(val, ms.SStr) and not spec and conv in (-1, ord('s')):
             return val
+        if isinstance(val, (SInt, SBool)) and conv == -1:
+            import re as _re
+            m = _re.fullmatch(r'(0?)(\d*)d?', spec or '')
+            if m is None:
+                raise Unsupported('format spec %r on a symbolic int' % spec)
+            from . import models
+            if isinstance(val, SBool):
+                val = SInt(z3.If(val.e, 1, 0))
+            atoms = models.decimal_atoms(self, val)
+            width = int(m.group(2) or 0)
+            if len(atoms) < width:
+                pad = 48 if m.group(1) else 32
+                if atoms and isinstance(atoms[0], int) and atoms[0] == 45 and m.group(1):
+                    atoms = [45] + [pad] * (width - len(atoms)) + atoms[1:]
+                else:
+                    atoms = [pad] * (width - len(atoms)) + atoms
+            return ms.mk_str(atoms)
         if deep_sym(val) and self.is_interp_class(type(val)) and not isinstance(val, Sym):
             m = self.static_lookup(type(val), '__str__')
             if m is not None and self.is_interp_callable(m):
@@ -1684,6 +1707,16 @@ class VM:
         if isinstance(o, SBytes):
             from . import models
             return models.sbytes_getitem(self, o, k)
+        from . import models_str as ms
+        if isinstance(o, ms.SStr):
+            n = len(o.a)
+            if isinstance(k, slice):
+                if k.step is not None:
+                    if is_sym(k.step) or is_sym(k.start) or is_sym(k.stop):
+                        raise Unsupported('symbolic slice with step on str')
+                    return ms.mk_str(o.a[k])
+                return ms.mk_str(o.a[self.conc_index(k.start, n, True):self.conc_index(k.stop, n, True)])
+            return ms.mk_str([o.a[self.conc_index(k, n, False)]])
         if isinstance(o, dict):
             r = self.dict_find(o, k)
             if r is MISSING:
@@ -1906,3 +1939,5 @@ def defining_class(fn):
 
 
 VM_SIGNALS = (Unsupported, BoundExceeded, ReturnEx, BreakEx, ContinueEx, Infeasible)
+import textwrap as _textwrap
+TEXT_ONLY = {_textwrap.dedent, _textwrap.indent}    # message helpers: opaque text in, opaque text out
